@@ -60,6 +60,7 @@ SR_WEIGHTS = (["add-mul"] * 4 + ["or-and"] * 4 + ["logaddexp-add"] * 2 + ["max-a
 #   "floats":     real leaves stored as float32 or float64
 #   None:         float64 throughout
 _STORAGE = [None]
+_LEAF_ARRAYS = {}    # (id(recipe leaf), log?) -> (recipe leaf, array)
 INT_STORES = ["bool", "uint8", "int64", "int32"]
 OPS_TO_SR = {(v[0], v[1]): k for k, v in SR.items()}
 
@@ -126,6 +127,22 @@ def gen_expr(rng, ctx, srname, params, depth, budget, top=False):
             return ("neg", a), fa
         b, fb = gen_expr(rng, ctx, srname, params, depth - 1, budget)
         return ("minus", a, b), fa | fb
+    if rng.random() < 0.03:
+        # a product with a REPEATED LEAF: f ⊗ f, f ⊗ f ⊗ g, the same interned Tensor / Number 2-3 times as direct operands
+        # of one product node (⊗ = add in the tropical / log semirings, where the canonical-order rule fires)
+        budget[0] -= 1
+        while True:
+            base, fa = gen_leaf(rng, ctx, srname, params)
+            if base[0] != "param":
+                break
+        factors = [base] * rng.choice([2, 2, 3])
+        free = set(fa)
+        if rng.random() < 0.5:
+            budget[0] -= 1
+            h, fh = gen_leaf(rng, ctx, srname, params)
+            factors.insert(rng.randrange(len(factors) + 1), h)
+            free |= fh
+        return ("prod", tuple(factors)), free
     if rng.random() < 0.04:
         # a product with a REPEATED identical compound factor (cons-hashing makes the copies one object): squares and
         # cubes of (f ⊕ g), with or without further factors, the copies in every position; binder-free inside the
@@ -332,6 +349,27 @@ def has_repeated_factor(r):
     return any(has_repeated_factor(k) for k in kids)
 
 
+def has_repeated_leaf(r):
+    """some product has the same leaf / number recipe twice among its direct factors"""
+    if r[0] == "prod":
+        leaves = [p for p in r[1] if p[0] in ("leaf", "num")]
+        if any(a is b or (a[0] == "num" and b[0] == "num" and a[1] == b[1])
+               for i, a in enumerate(leaves) for b in leaves[i + 1:]):
+            return True
+    kids = []
+    if r[0] in ("prod", "plus"):
+        kids = r[1]
+    elif r[0] == "sum":
+        kids = [r[3]]
+    elif r[0] == "contraction":
+        kids = r[2]
+    elif r[0] in ("subs", "neg"):
+        kids = [r[1]]
+    elif r[0] == "minus":
+        kids = [r[1], r[2]]
+    return any(has_repeated_leaf(k) for k in kids)
+
+
 def describe_recipe(x):
     if isinstance(x, np.ndarray):
         return x.tolist()
@@ -355,17 +393,24 @@ def build(r, srname, ctx, linear=False):
         sum_op, prod_op = SR[twin][0], SR[twin][1]
     tag = r[0]
     if tag == "leaf":
-        data = r[2]
-        if kind == "log" and not linear:
-            with np.errstate(divide="ignore"):
-                data = np.log(data)
         store = r[3] if len(r) > 3 else None
+        key = (id(r), bool(kind == "log" and not linear))
+        hit = _LEAF_ARRAYS.get(key)
+        if hit is None or hit[0] is not r:
+            data = r[2]
+            if kind == "log" and not linear:
+                with np.errstate(divide="ignore"):
+                    data = np.log(data)
+            if store is not None:
+                data = data.astype(store)
+            if len(_LEAF_ARRAYS) > 4000:
+                _LEAF_ARRAYS.clear()
+            _LEAF_ARRAYS[key] = hit = (r, data)
+        data = hit[1]       # one array object per recipe leaf: a leaf used twice is the SAME interned Tensor
         inputs = OrderedDict((n, Bint[ctx[n]]) for n in r[1])
-        if store is None:
-            return Tensor(data, inputs)
         if store in INT_STORES:
-            return Tensor(data.astype(store), inputs, 2)       # Bint[2]-valued, 0/1 stored in `store`
-        return Tensor(data.astype(store), inputs)
+            return Tensor(data, inputs, 2)       # Bint[2]-valued, 0/1 stored in `store`
+        return Tensor(data, inputs)
     if tag == "num":
         v = r[1]
         if kind == "log" and not linear:
@@ -403,8 +448,34 @@ def build(r, srname, ctx, linear=False):
     raise ValueError(tag)
 
 
+def leaf_names(r, acc=None):
+    """id(leaf recipe) -> python variable name: a leaf used twice must be ONE Tensor object in a replay"""
+    acc = acc if acc is not None else {}
+    if r[0] == "leaf":
+        acc.setdefault(id(r), (f"L{len(acc)}", r))
+    elif r[0] in ("prod", "plus"):
+        for q in r[1]:
+            leaf_names(q, acc)
+    elif r[0] == "sum":
+        leaf_names(r[3], acc)
+    elif r[0] == "contraction":
+        for q in r[2]:
+            leaf_names(q, acc)
+    elif r[0] in ("subs", "neg"):
+        leaf_names(r[1], acc)
+    elif r[0] == "minus":
+        leaf_names(r[1], acc)
+        leaf_names(r[2], acc)
+    return acc
+
+
+_PY_NAMES = [None]
+
+
 def python_of(r, ctx):
     tag = r[0]
+    if tag == "leaf" and _PY_NAMES[0] is not None and id(r) in _PY_NAMES[0]:
+        return _PY_NAMES[0][id(r)][0]
     if tag == "leaf":
         return (f"T({r[2].tolist()!r}, OrderedDict([" + ", ".join(f"({n!r}, Bint[{ctx[n]}])" for n in r[1]) + "]), "
                 f"{(r[3] if len(r) > 3 else None)!r})")
@@ -459,6 +530,16 @@ def fold(op, xs):
 
 
 def replay_python(case, stage, ins, expected):
+    names = leaf_names(case["recipe"])
+    defs = "".join(f"{nm} = {python_of(leaf, case['ctx'])}\n" for nm, leaf in names.values())
+    _PY_NAMES[0] = names
+    try:
+        return _replay_python(case, stage, ins, expected, defs)
+    finally:
+        _PY_NAMES[0] = None
+
+
+def _replay_python(case, stage, ins, expected, defs):
     srname = case["sr"]
     kind = SR[srname][3]
     sum_name = {"add-mul": "ops.add", "logaddexp-add": "ops.logaddexp", "max-add": "ops.max", "min-add": "ops.min",
@@ -475,6 +556,7 @@ def replay_python(case, stage, ins, expected):
               "    return Tensor(np.array(d, dtype=bool).astype(store), ins, 2)\ndef N(v):\n    return Number(v)\n")
     else:
         s += "def T(d, ins, store=None):\n    return Tensor(np.array(d, dtype=store or float), ins)\ndef N(v):\n    return Number(v)\n"
+    s += defs
     s += f"with {case['mode']}:\n    x = {python_of(case['recipe'], case['ctx'])}\n"
     s += {"naive-eager": f"r = {python_of(case['recipe'], case['ctx'])}\n",
           "reinterpret": "r = reinterpret(x)\n",
@@ -920,6 +1002,8 @@ def check_cases(ctx, cases, label="clean"):
                 ctx.count("subs:index-tensor")
         if has_repeated_factor(case["recipe"]):
             ctx.count("product:repeated-compound-factor")
+        if has_repeated_leaf(case["recipe"]):
+            ctx.count("product:repeated-leaf-operand")
         try:
             spec = model_values(answers[job["spec_req"]])
         except RuntimeError as e:
